@@ -18,6 +18,7 @@ import (
 	"runtime/pprof"
 	"sort"
 	"strings"
+	"sync"
 	"sync/atomic"
 	"time"
 
@@ -328,6 +329,7 @@ type stepObs struct {
 
 // one sequential request: returns the Coq term (req, oracle, robs, events) and the observation
 func (w *world) runStep(env *environment.Environment, st stepIn) (string, stepObs) {
+	flightStep(st)
 	prev := env.Sm.Current()
 	w.setFaults(st.Faults, true)
 	n := w.mark()
@@ -376,6 +378,7 @@ func (w *world) newEnv(create string) (*environment.Environment, error) {
 }
 
 func (w *world) caseSeq(in seqIn) gen.Case {
+	flightSeq(in.Create)
 	w.setCur(nil)
 	env, err := w.newEnv(in.Create)
 	if err != nil {
@@ -489,6 +492,7 @@ func (w *world) genSeq(r *gen.Rand, maxLen int) gen.Case {
 		create = "api"
 	}
 	in := seqIn{Create: create}
+	flightSeq(create)
 	w.setCur(nil)
 	env, err := w.newEnv(create)
 	if err != nil {
@@ -664,6 +668,7 @@ func thrTerm(q reqIn, o thrObs) string {
 }
 
 func (w *world) caseConc(in concIn) gen.Case {
+	flightConc(in)
 	switch in.Scenario {
 	case "stale":
 		return w.caseStale(in)
@@ -1143,6 +1148,8 @@ func main() {
 		os.Exit(1)
 	}
 	var cases []gen.Case
+	var doneMu sync.Mutex
+	var doneCases []gen.Case
 	wrap := func(c gen.Case) gen.Case {
 		progress()
 		switch v := c.Input.(type) {
@@ -1153,7 +1160,17 @@ func main() {
 		case concIn:
 			c.Input = anyIn{Conc: &v}
 		}
+		doneMu.Lock()
+		doneCases = append(doneCases, c)
+		doneMu.Unlock()
 		return c
+	}
+	stallFlush = func() bool {
+		doneMu.Lock()
+		cs := append(append([]gen.Case{}, doneCases...), hungFlight())
+		doneMu.Unlock()
+		extra := map[string]any{"stalled": true, "attempt": attempt()}
+		return gen.WriteCases(o, "C01", "From Verif Require Import EnvFsm.", "c01_case", "report01", cs, extra) == nil
 	}
 	fsmEnv := func() *environment.Environment {
 		env, err := w.newListed()
